@@ -73,6 +73,11 @@ def run(lines, out, args):
                 got = "sro %s | iro %s | imp %s | ro %s | strict %s | cons %s" % (
                     ids(x.__sro__), ids(x.__iro__), " ".join(map(str, imp)), ids(ro.ro(x)), st,
                     str(bool(ro.is_consistent(x))).lower())
+            elif f[0] == "q1":
+                # one single question, by the fastest public route (the specification called as a function = isOrExtends)
+                x, t = nodes[int(f[1])], nodes[a[0]]
+                r1 = x.isOrExtends(t)
+                got = "true" if r1 else "false"
             elif f[0] == "fresh":
                 got = "true"
             else:
